@@ -266,6 +266,18 @@ N(x + 2) :- L(x);
 T(x, y) :- M(x), N(y);
 U(s? += x) distinct :- T(x, y);
 ''', ['L', 'M', 'N', 'T', 'U']),
+  'with_tables_shared_by_grounded_parents': ('''@Engine("sqlite");
+@Ground(Stock); @Ground(Alpha); @Ground(Brief);
+Item(1); Item(2); Item(7);
+Stock(x) :- Item(x), x > 1;
+W1(x) :- Item(x), x < 5;
+W1(x + 1) :- Item(x), x > 5;
+W2(x) :- Stock(x), x > 0;
+W2(x) :- Stock(x), x > 5;
+Alpha(x) :- W1(x), W2(x);
+Brief(x) :- W1(x), W2(x + 5);
+T(x, y) :- Alpha(x), Brief(y);
+''', ['T', 'Alpha', 'Brief', 'Stock']),
   'deep_recursion': ('''@Engine("sqlite");
 @Recursive(N, 25);
 @Ground(Start);
